@@ -137,6 +137,68 @@ PROPS = {
              technique="metamorphic runtime monitor"),
 }
 
+PROPS["C06"] = P("exploration",
+    "candidates over an integer domain (-2..3 in both representations, i64::MIN, i64::MAX, i64::MAX as u64, i64::MAX+1, u64::MAX) and a string "
+    "domain (\"\", a, b), each with null: Impossible, All, every Single, Multiple of 0/2/3 elements (duplicates and null allowed), every Range "
+    "(Unbounded/Included/Excluded start x end x null flag, incl. inverted and point ranges) = 2137 + 169 candidates; the real intersect / "
+    "normalize / exclude_single_value are called through the verif_hooks wrappers and membership of every probe value is compared with the "
+    "set-theoretic expectation using the harness's own value order. quick samples pairs; thorough takes the full product (exhaustive over the "
+    "domain). distinct_nontrivial = distinct candidates / pairs touched",
+    quick={"cases": 30000, "timeout": 300},
+    thorough={"cases": 0, "timeout": 1800, "args": ["--exhaustive", "1", "--slice", "{i}", "--of", "{n}"]},
+    floors={"evaluations": 100000, "distinct": 500},
+    technique="reference-model runtime monitor through a guarded hook (set-membership oracle)")
+PROPS["C07"] = P("exploration",
+    "route B: the real operator functions (=, <, <=, >, >=, has_prefix/suffix/substring, one_of, contains, regex) are called through the "
+    "verif_hooks wrapper on all same-kind pairs of boundary pools (13 integers in both representations incl. i64::MIN/MAX, i64::MAX+-1 as u64, "
+    "u64::MAX; floats; strings incl. invalid regexes; booleans; lists with and without nulls; each with null) plus random 64-bit integer pairs, "
+    "and compared with definitions written in the harness (i128 integers, null => false for orderings, null-safe equality, lexicographic lists). "
+    "route A: a 169-vertex grid of operand pairs is queried end-to-end once per operator with the right operand as a @tag (slow path) and per "
+    "value as a $variable (static / precompiled-regex path) for all 20 operators incl. every negation; the kept vertex set must equal the definition",
+    quick={"cases": 30000, "timeout": 300, "args": ["--slice", "{i}", "--variable-values", "6"]},
+    thorough={"cases": 3000000, "timeout": 1800, "args": ["--slice", "{i}", "--variable-values", "40"]},
+    floors={"evaluations": 500000, "distinct": 50, "counters": {"grid_queries_tag_route": 50, "grid_queries_variable_route": 200}},
+    technique="reference-model runtime monitor (direct calls through a guarded hook + end-to-end operand grids)")
+PROPS["C08"] = P("exploration",
+    "all 216 000 triples over a 60-value pool (null, booleans, boundary integers in both representations, finite floats incl. +-0.0 and "
+    "subnormals, strings, enums, nested and mixed lists) - exhaustive for the pool - plus random triples: == reflexive/symmetric/transitive, "
+    "partial_cmp total/antisymmetric/transitive, a==b <=> cmp=Equal, equal values order alike, integers by i128 value, lists lexicographic",
+    quick={"cases": 100000, "timeout": 300, "args": ["--slice", "{i}", "--of", "{n}"]},
+    thorough={"cases": 20000000, "timeout": 1800, "args": ["--slice", "{i}", "--of", "{n}"]},
+    floors={"evaluations": 216000, "distinct": 60},
+    exhaustive=True,
+    technique="law monitor on the public API (exhaustive over a boundary pool + random)")
+PROPS["C16"] = P("exploration",
+    "types: parse/Display and serde (RON, JSON) round trips for all 504 types with <= 5 list levels over 4 base names (exhaustive) and random "
+    "types up to the maximum depth 30; values: random FieldValues (35 % random finite f64 bit patterns incl. subnormals, nesting <= 4) through "
+    "tagged RON and JSON (bit-identical), FieldValue->TransparentValue->FieldValue (identity) and untagged JSON text (equal); compiled IRQuery "
+    "and IndexedQuery of the query stream through RON and JSON. The harness depends on serde_json with default features only, so it observes "
+    "the feature set trustfall_core itself selects",
+    quick={"cases": 8000, "timeout": 300, "args": ["--slice", "{i}"]},
+    thorough={"cases": 1500000, "timeout": 1800, "args": ["--slice", "{i}"]},
+    floors={"evaluations": 50000, "distinct": 300, "counters": {"value-kind:Float64": 20000, "roundtrip-ok:indexedquery-ron": 1000}},
+    technique="round-trip runtime monitor")
+PROPS["C17"] = P("exploration",
+    "universe: base in {Int, String, Foo} x 0-3 list levels x every nullability vector = 90 types; ALL pairs and triples: intersect "
+    "commutative / idempotent / associative / equal to the model's meet / subtype of both / greatest among common subtypes / None iff base or "
+    "depth differ; scalar subtype relation equals the model and is a partial order; valid(sub,v) => valid(super,v) and is_valid_value == the "
+    "harness's fits() on 76 values up to nesting 3; equal_ignoring_nullability is the same-shape equivalence. Crate-internal relations are "
+    "reached through the verif_hooks wrappers",
+    quick={"cases": 0, "timeout": 300, "args": ["--slice", "{i}", "--of", "{n}"]},
+    thorough={"cases": 0, "timeout": 600, "args": ["--slice", "{i}", "--of", "{n}"]},
+    floors={"evaluations": 700000, "distinct": 90},
+    exhaustive=True,
+    technique="law monitor through guarded hooks, exhaustive over the stated universe")
+PROPS["C18"] = P("exploration",
+    "62 target instantiations of struct Row<T>{v:T} (i8..i128, isize, u8..u128, usize, f32, f64, bool, char, String, Option, Vec, tuples, "
+    "nestings) x a pool of boundary values (every integer width boundary +-1 in both representations, lists, nulls, floats, strings) + random "
+    "values; both entry points: result rows (BTreeMap<Arc<str>,FieldValue>) and &EdgeParameters obtained from compiled queries. Expectation "
+    "(own): integer fits the target range => Ok(exact) else Err; f64 exact; f32 when representable; tuple arity; null only into Option; "
+    "int->float and non-representable f32 are left unspecified. distinct_nontrivial = distinct value classes",
+    quick={"cases": 300, "timeout": 300},
+    thorough={"cases": 20000, "timeout": 1800},
+    floors={"evaluations": 100000, "distinct": 10, "counters": {"decoded_exactly": 10000, "refused_as_expected": 50000}},
+    technique="reference-model runtime monitor on the deserialisation entry points")
 PROPS["C14"] = P("exploration",
     GEN + "plus two invalid variants per query with several simultaneous frontend errors, plus schema documents with several simultaneous "
     "errors. Each (schema text, query text, arguments) is observed 3x in-process starting from a fresh Schema::parse (serialised IR, declared "
